@@ -262,6 +262,16 @@ theorem steps_within (fs : Fs) (c : Cmd) : Within (targets fs c) (steps fs c) :=
     intro t ht
     simp only [List.mem_append, List.mem_singleton, List.mem_map]
     exact Or.inr ⟨t, ht, rfl⟩
+  | undeclareAny p f =>
+    simp only [steps, targets]
+    cases soleVersion fs p f with
+    | none => exact Within.nil _
+    | some v =>
+      simp only
+      refine Within.ite _ (Within.nil _) (within_dbUndeclare _ fs p v f (by simp) ?_)
+      intro t ht
+      simp only [List.mem_append, List.mem_singleton, List.mem_map]
+      exact Or.inr ⟨t, ht, rfl⟩
 
 /-! ## Commit points of the repaired writers -/
 
@@ -1091,6 +1101,14 @@ theorem steps_atomic (fs : Fs) (hwf : WF fs) (c : Cmd) (hnr : retag fs c = false
       exact h ⟨t, ht, hr⟩
   | untag t p f v => exact hsw (cnt_steps_untag fs t p f v r)
   | undeclare p v f => exact hsw (cnt_steps_undeclare fs hwf.nodup p v f r)
+  | undeclareAny p f =>
+    apply hsw
+    simp only [steps]
+    cases soleVersion fs p f with
+    | none => simp [cnt]
+    | some v =>
+      have := cnt_steps_undeclare fs hwf.nodup p v f r
+      simpa only [steps] using this
 
 /-! ### No record is ever seen empty or truncated -/
 
@@ -1354,6 +1372,13 @@ theorem kinds_steps (fs : Fs) (c : Cmd) : KindsOK (steps fs c) := by
   | undeclare p v f =>
     simp only [steps]
     exact KindsOK.ite _ KindsOK.nil (kinds_dbUndeclare _ _ _ _)
+  | undeclareAny p f =>
+    simp only [steps]
+    cases soleVersion fs p f with
+    | none => exact KindsOK.nil
+    | some v =>
+      simp only
+      exact KindsOK.ite _ KindsOK.nil (kinds_dbUndeclare _ _ _ _)
 
 theorem mainGood_applyStep (fs : Fs) (s : Step) (h : MainGood fs) (hs : StepKindOK s) : MainGood (applyStep fs s) := by
   cases s with
